@@ -54,11 +54,8 @@ func FuzzC16(f *testing.F) {
 		f.Add(q)
 	}
 	f.Fuzz(func(t *testing.T, query string) {
-		for i := 0; i < len(query); i++ {
-			if query[i] == '\t' || query[i] == '\n' || query[i] == '\r' || query[i] == '\v' || query[i] == '\f' || query[i] >= 0x80 {
-				return // only the space character is a documented separator; words are ASCII
-			}
-		}
+		// any bytes: the token-truth invariants hold for every input, the
+		// reference tokeniser abstains where the documentation is silent
 		if msg := checkC16(query); msg != "" {
 			fail(t, "C16", "c16", msg, &c16Case{Query: query})
 		}
